@@ -10,8 +10,7 @@ CONSTANTS
   StoreOnLoad = TRUE
   Depth = 6
   Hist = FALSE
-CONSTRAINT Bound
-CONSTRAINT Emit
+CONSTRAINT Cons
 CHECK_DEADLOCK FALSE
 VIEW View
 INVARIANT ModeTakesEffect
